@@ -32,7 +32,7 @@ META = dict(
               "4 densities x 4 density forms; 7 global wavelengths + all nodes/midpoints/outside points of the "
               "energy tables; wavelength= and energy=; scalar and vectors of length 1, 2, 5, full grid",
         thorough="quick + all triples over a 9-atom sub-alphabet x 27 count triples; quarter points between table "
-                 "nodes; node sweeps at every density"),
+                 "nodes; node sweeps in every density form at density 1 and with density= at every density"),
     assumptions=[
         "the embedded table text (nsf.nsftable, nsf_tables, mass, density) is the source of truth; that the library "
         "serves those values is C06/C07",
@@ -487,7 +487,8 @@ def do_single(ck, key, thorough):
             dforms += [("density", d, "atom")]
         for kind, dv, form in dforms:
             dspec = (kind, dv)
-            sweep = has_nodes and (thorough or (d == 1.0 and kind in ("density", "tag")))
+            sweep = has_nodes and ((d == 1.0 and (thorough or kind in ("density", "tag")))
+                                   or (thorough and kind == "density"))
             if form == "string":
                 # strings are parsed on every call: one scalar, one vector
                 ck.case("compound", frags, form, dspec, ("wl", [1.798], "scalar"))
@@ -513,7 +514,8 @@ def do_compound(ck, frags, thorough):
             dforms += [("natural", d, "list"), ("tagn", d, "string")]
         for kind, dv, form in dforms:
             dspec = (kind, dv)
-            sweep = has_nodes and (thorough or (d == 1.0 and kind in ("density", "tag")))
+            sweep = has_nodes and ((d == 1.0 and (thorough or kind in ("density", "tag")))
+                                   or (thorough and kind == "density"))
             if form == "string":
                 ck.case("compound", frags, form, dspec, ("wl", [1.798], "scalar"))
                 ck.case("compound", frags, form, dspec, ("en", (full if sweep else grid), "vector"))
